@@ -1,6 +1,7 @@
 package props
 
 import (
+	"io"
 	"math/big"
 	"strings"
 	"sync"
@@ -103,6 +104,22 @@ type yaoOpts struct {
 	record   bool
 	stallWin time.Duration   // >0: stall detector on the tap link
 	prepare  func(d *duplex) // e.g. install faults
+	// randSeed != 0: the garbler's entropy (env.Config.Rand) is the PRNG stream
+	// of this seed, so that two sessions draw the same key and offset;
+	// randFailAfter > 0: that source fails after so many bytes.
+	randSeed      uint64
+	randFailAfter int
+}
+
+func (o yaoOpts) entropy(r *vrt.Rng) io.Reader {
+	if o.randSeed == 0 {
+		return r.Fork()
+	}
+	src := vrt.NewRng(o.randSeed)
+	if o.randFailAfter > 0 {
+		return &failingReader{r: src, left: o.randFailAfter}
+	}
+	return src
 }
 
 type yaoOut struct {
@@ -146,7 +163,7 @@ func runYao(r *vrt.Rng, c *circuit.Circuit, x, y *big.Int, o yaoOpts) *yaoOut {
 	out.otName = name
 	out.rec = &otx.Recorder{Inner: gi}
 	out.erec = &otx.Recorder{Inner: ei}
-	cfg := &env.Config{Rand: r.Fork()}
+	cfg := &env.Config{Rand: o.entropy(r)}
 	out.g, out.e = runPair(d, func() (err error) {
 		out.gRes, err = circuit.Garbler(cfg, d.connA, out.rec, c, x, false)
 		return
@@ -192,7 +209,7 @@ func runStream(r *vrt.Rng, src string, params *utils.Params, gIn, eIn []string, 
 	if params == nil {
 		params = utils.NewParams()
 	}
-	params.Config = &env.Config{Rand: r.Fork()}
+	params.Config = &env.Config{Rand: o.entropy(r)}
 	out.g, out.e = runPair(d, func() (err error) {
 		sizes, err := circuit.InputSizes(gIn)
 		if err != nil {
